@@ -626,7 +626,7 @@ Lemma group_fold_total l : forall cs,
   sumZ (map c_total (fold_left ins l cs)) = sumZ (map c_total cs) + sumZ (map (fun p => j_ytd (snd p)) l) /\
   sumZ (map c_count (fold_left ins l cs)) = sumZ (map c_count cs) + sumZ (map (fun p => j_count (snd p)) l).
 Proof.
-  induction l as [|p l IH]; intros cs; [cbn; lia|].
+  induction l as [|p l IH]; intros cs; [cbn [fold_left map]; change (sumZ []) with 0; lia|].
   cbn [fold_left map]. destruct (IH (ins cs p)) as [I1 I2]. rewrite I1, I2. unfold ins.
   destruct (add_cat_total cs (fst (cat_key (snd p))) (snd (cat_key (snd p))) (fst p) (snd p)) as [A1 A2].
   rewrite A1, A2. cbn [sumZ fold_right]. fold (sumZ (map (fun p0 => j_ytd (snd p0)) l)).
